@@ -117,7 +117,7 @@ theorem exec_symlinkRobust (c : Cfg) (t : Tree) (s : State) (p : Path) (tg : Str
   rw [hsplit] at hslot1
   obtain ⟨r', h1, h2⟩ := tSymlink_spec r1 _ _ tg hpar1 hslot1
   rw [← hsplit] at h1 h2
-  refine ⟨r', by simp [exec, hc1, hbad, lift, h1], ?_⟩
+  refine ⟨r', by simp [exec, hc1, linkFate, hbad, lift, h1], ?_⟩
   intro q
   rw [h2 q, hc2 q]
   by_cases hq : q = p <;> simp [hq]
